@@ -1,7 +1,9 @@
 /-
   C14 — property theorems: surface-oriented cells (`free_surface_basis`), termination shifts and the
   surface system (`FreeSurface`), stacking-fault shifts (`StackingFault.fault`).
-  Model: lean/Atomman/C14.lean.  `K` is any linearly ordered field (ℚ in the driver, ℝ for the reader).
+  Model: lean/Atomman/C14.lean.  For `free_surface_basis` `K` is any linearly ordered commutative ring (the
+  driver runs the model at `ℤ` on the cell scaled to integers and at `ℚ`); the statements that divide
+  (`normal_is_reciprocal`, wrap, fault, shifts) are for linearly ordered fields.
 -/
 import Proofs.C14_Search
 import Proofs.C04
@@ -17,7 +19,7 @@ set_option linter.unusedSimpArgs false
 set_option linter.unusedVariables false
 
 section fsb
-variable {K : Type} [Field K] [LinearOrder K] [IsStrictOrderedRing K]
+variable {K : Type} [CommRing K] [LinearOrder K] [IsStrictOrderedRing K]
 
 /-! ## `free_surface_basis` -/
 
@@ -274,6 +276,11 @@ theorem normal_matches_miller (V : M3 K) (hkl : IV) (L : M3 Int) (nOpt : Option 
   simp only [C16.normalOf, planeNormal, cart_vecMul]
   rfl
 
+end fsb
+
+section fsbField
+variable {K : Type} [Field K] [LinearOrder K] [IsStrictOrderedRing K]
+
 /-- **normal_is_reciprocal**: the reported normal is a positive multiple of
     `det(L·V) · (h a* + k b* + l c*)`, the reciprocal-lattice vector of the conventional cell `L·V`:
     for a right-handed cell it points along the plane's reciprocal-lattice direction. -/
@@ -297,6 +304,11 @@ theorem normal_is_reciprocal (V : M3 K) (hdet : M3.det V ≠ 0) (hkl : IV) (L : 
   rw [normal_matches_miller V hkl L nOpt r h] at hn1
   cases hn1
   exact ⟨c, hc, he⟩
+
+end fsbField
+
+section fsb
+variable {K : Type} [CommRing K] [LinearOrder K] [IsStrictOrderedRing K]
 
 /-- every centring matrix of `miller.vector_conventional_to_primitive` is non-singular
     (determinant = number of lattice points of the conventional cell: 1, 2, 2, 2, 2, 4, 3, 3). -/
@@ -364,6 +376,221 @@ theorem basis_b_shortest (V : M3 K) (hkl : IV) (L : M3 Int) (nOpt : Option Int) 
     exact ⟨by rw [← q5]; exact hmin v hv hf, q6 v hv hf⟩
 
 end fsb
+
+
+/-! ## the relational model: whatever `Rel.validBasis` accepts has the properties as well
+    (this is what the correspondence falls back to where a float tie decides the coded choice) -/
+section relational
+variable {K : Type} [CommRing K] [LinearOrder K] [IsStrictOrderedRing K]
+
+/-- the facts the two searches establish about a triple. -/
+structure Accepted (V : M3 K) (pn : V3 K) (n : ℤ) (a b c : IV) : Prop where
+  a_ok : a ∈ genVectors n ∧ inPlane V pn a
+  c_ok : ∃ c0 ∈ genVectors n, towardNormal V pn c0 ∧ c = reduceGcd c0
+  b_ok : b ∈ genVectors n ∧ bFilter V pn (cart V a) b
+
+/-- the normal is related to the plane indices as `normal_component` says. -/
+def NormalOf (V : M3 K) (hkl : IV) (L : M3 Int) (pn : V3 K) : Prop :=
+  ∃ num den : ℤ, 0 < num ∧ 0 < den ∧ ∀ u : IV,
+    (den : K) * V3.dot (cart V u) pn = (num : K) * M3.det V * ((V3.dot hkl (M3.vecMul u (adj L)) : ℤ) : K)
+
+theorem accepted_of_run (V : M3 K) (hdet : M3.det V ≠ 0) (hkl : IV) (L : M3 Int) (nOpt : Option Int) (r : ABC K)
+    (h : basisABC V hkl L nOpt = .ok r) : Accepted V r.pn r.n r.a r.b r.c ∧ NormalOf V hkl L r.pn := by
+  obtain ⟨h1, h2, h3⟩ := search_result_satisfies_filter V hdet hkl L nOpt r h
+  exact ⟨⟨h1, h2, h3⟩, normal_component V hkl L nOpt r h⟩
+
+/-- all clauses, for any accepted triple. -/
+theorem accepted_properties (V : M3 K) (hdet : M3.det V ≠ 0) (hkl : IV) (L : M3 Int) (pn : V3 K) (n : ℤ)
+    (a b c : IV) (hn : NormalOf V hkl L pn) (h : Accepted V pn n a b c) :
+    V3.dot hkl (M3.vecMul a (adj L)) = 0 ∧ V3.dot hkl (M3.vecMul b (adj L)) = 0 ∧
+    V3.dot hkl (M3.vecMul c (adj L)) ≠ 0 ∧ (0 < M3.det V → 0 < V3.dot hkl (M3.vecMul c (adj L))) ∧
+    0 < ((M3.det (⟨a, b, c⟩ : M3 Int) : ℤ) : K) * M3.det V ∧ (0 < M3.det V → 0 < M3.det (⟨a, b, c⟩ : M3 Int)) ∧
+    gcd3 c = 1 := by
+  obtain ⟨⟨_, ha⟩, ⟨c0, hc0, ht, hcr⟩, ⟨_, hb, _, hw⟩⟩ := h
+  obtain ⟨num, den, h1, h2, he⟩ := hn
+  have hnum : (0 : K) < (num : K) := by exact_mod_cast h1
+  have hden : (0 : K) < (den : K) := by exact_mod_cast h2
+  have zone : ∀ u : IV, V3.dot (cart V u) pn = 0 → V3.dot hkl (M3.vecMul u (adj L)) = 0 := by
+    intro u h0
+    have := he u
+    rw [h0, mul_zero] at this
+    have h3 := (mul_eq_zero.mp this.symm).resolve_left (mul_ne_zero hnum.ne' hdet)
+    exact_mod_cast h3
+  have hne : c0 ≠ ⟨0, 0, 0⟩ := ((mem_genVectors _ _).mp hc0).2.2.2
+  have hgK : (0 : K) < (gcd3 c0 : K) := by exact_mod_cast gcd3_pos c0 hne
+  have e : dn V pn c0 = (gcd3 c0 : K) * dn V pn c := by rw [← dn_smul, hcr, reduceGcd_smul]
+  have hpos : 0 < dn V pn c := by
+    have ht' : 0 < dn V pn c0 := ht
+    rw [e] at ht'
+    exact (pos_iff_pos_of_mul_pos ht').mp hgK
+  have hl : 0 < (num : K) * M3.det V * ((V3.dot hkl (M3.vecMul c (adj L)) : ℤ) : K) := by
+    rw [← he c]; exact mul_pos hden hpos
+  have hcne : V3.dot hkl (M3.vecMul c (adj L)) ≠ 0 := by
+    intro h0; rw [h0, Int.cast_zero, mul_zero] at hl; exact lt_irrefl _ hl
+  have hpnne : pn ≠ ⟨0, 0, 0⟩ := by
+    intro h0
+    rw [dn, h0] at hpos
+    simp only [V3.dot, mul_zero, add_zero, lt_irrefl] at hpos
+  have key := triple_via_normal (cart V a) (cart V b) (cart V c) pn ha hb
+  have hp : 0 < V3.normSq pn * V3.dot (V3.cross (cart V a) (cart V b)) (cart V c) := by
+    rw [key]; exact mul_pos hw hpos
+  have hdetc : 0 < V3.dot (V3.cross (cart V a) (cart V b)) (cart V c) :=
+    (pos_iff_pos_of_mul_pos hp).mp (normSq_pos pn hpnne)
+  rw [det_cart] at hdetc
+  refine ⟨zone a ha, zone b hb, hcne, ?_, hdetc, ?_, by rw [hcr]; exact reduceGcd_coprime c0 hne⟩
+  · intro hd
+    have : (0 : K) < ((V3.dot hkl (M3.vecMul c (adj L)) : ℤ) : K) := (pos_iff_pos_of_mul_pos hl).mp (mul_pos hnum hd)
+    exact_mod_cast this
+  · intro hd
+    have : (0 : K) < ((M3.det (⟨a, b, c⟩ : M3 Int) : ℤ) : K) := (pos_iff_pos_of_mul_pos hdetc).mpr hd
+    exact_mod_cast this
+
+theorem inRange_iff (n : ℤ) (v : IV) : Rel.inRange n v = true ↔ v ∈ genVectors n := by
+  obtain ⟨x, y, z⟩ := v
+  rw [mem_genVectors]
+  simp only [Rel.inRange, Bool.and_eq_true, decide_eq_true_eq, Bool.not_eq_true', Bool.and_eq_false_iff,
+    beq_eq_false_iff_ne, ne_eq, beq_iff_eq]
+  constructor
+  · rintro ⟨⟨⟨h1, h2⟩, h3⟩, h4⟩
+    refine ⟨by omega, by omega, by omega, ?_⟩
+    intro h0
+    simp only [V3.mk.injEq] at h0
+    obtain ⟨rfl, rfl, rfl⟩ := h0
+    simp at h4
+  · rintro ⟨h1, h2, h3, h4⟩
+    refine ⟨⟨⟨by omega, by omega⟩, by omega⟩, ?_⟩
+    by_cases hx : x = 0
+    · by_cases hy : y = 0
+      · right
+        intro hz
+        exact h4 (by rw [hx, hy, hz])
+      · left; right; exact hy
+    · left; left; exact hx
+
+theorem unorder_orderRows (cut : Cut) (a b c : IV) : Rel.unorder cut (orderRows cut a b c) = (a, b, c) := by
+  cases cut <;> rfl
+
+theorem orderRows_unorder (cut : Cut) (m : M3 Int) :
+    orderRows cut (Rel.unorder cut m).1 (Rel.unorder cut m).2.1 (Rel.unorder cut m).2.2 = m := by
+  cases cut <;> rfl
+
+/-- **validBasis_sound**: a matrix accepted by the relational model consists of an accepted triple in
+    the rows the cut vector prescribes, for the normal the routine computes. -/
+theorem validBasis_sound (V : M3 K) (hkl : IV) (L : M3 Int) (cut : Cut) (nOpt : Option Int) (uvws : M3 Int)
+    (tn td : ℤ) (h : Rel.validBasis V hkl L cut nOpt uvws tn td = "1") :
+    ∃ ini, initVectors hkl = some ini ∧
+      Accepted V (planeNormal V ini.s (M3.vecMul ini.a0 L) (M3.vecMul ini.b0 L)) (maxIndexOf ini hkl L nOpt)
+        (Rel.unorder cut uvws).1 (Rel.unorder cut uvws).2.1 (Rel.unorder cut uvws).2.2 := by
+  unfold Rel.validBasis at h
+  split at h
+  · exact absurd h (by decide)
+  · rename_i ini hini
+    refine ⟨ini, hini, ?_⟩
+    simp only at h
+    generalize hu : Rel.unorder cut uvws = t at h ⊢
+    obtain ⟨a, b, c⟩ := t
+    simp only at h
+    split_ifs at h with h1 h2 h3 h4 h5 h6 h7 h8 h9
+    all_goals first | exact absurd h (by decide) | skip
+    simp only [Bool.not_eq_true', Bool.and_eq_false_iff, not_or, Bool.not_eq_false, decide_eq_false_iff_not,
+      not_not, decide_eq_true_eq] at h1 h7
+    simp only [Bool.not_eq_true', Bool.not_eq_false] at h5
+    refine ⟨⟨(inRange_iff _ _).mp h1.1, h1.2⟩, ?_, ⟨(inRange_iff _ _).mp h7.1, h7.2⟩⟩
+    rw [List.any_eq_true] at h5
+    obtain ⟨c0, hc0, hc1⟩ := h5
+    simp only [Bool.and_eq_true, decide_eq_true_eq] at hc1
+    exact ⟨c0, hc0, hc1.1, hc1.2.symm⟩
+
+/-- every clause of the property for a matrix the relational model accepts. -/
+theorem validBasis_properties (V : M3 K) (hdet : M3.det V ≠ 0) (hkl : IV) (L : M3 Int) (cut : Cut)
+    (nOpt : Option Int) (uvws : M3 Int) (tn td : ℤ) (h : Rel.validBasis V hkl L cut nOpt uvws tn td = "1") :
+    V3.dot hkl (M3.vecMul (uvws.row ((cutIndex cut + 1) % 3)) (adj L)) = 0 ∧
+    V3.dot hkl (M3.vecMul (uvws.row ((cutIndex cut + 2) % 3)) (adj L)) = 0 ∧
+    V3.dot hkl (M3.vecMul (uvws.row (cutIndex cut)) (adj L)) ≠ 0 ∧
+    (0 < M3.det V → 0 < V3.dot hkl (M3.vecMul (uvws.row (cutIndex cut)) (adj L)) ∧ 0 < M3.det uvws) := by
+  obtain ⟨ini, hi, hacc⟩ := validBasis_sound V hkl L cut nOpt uvws tn td h
+  have hne : hkl ≠ ⟨0, 0, 0⟩ := by
+    rintro rfl; rw [initVectors_zero] at hi; cases hi
+  obtain ⟨ini', hi', num, den, h1, h2, he⟩ := init_cross_parallel hkl hne
+  rw [hi] at hi'; cases hi'
+  have hn : NormalOf V hkl L (planeNormal V ini.s (M3.vecMul ini.a0 L) (M3.vecMul ini.b0 L)) :=
+    ⟨num, den, h1, h2, fun u => dot_cart_planeNormal V L ini.a0 ini.b0 hkl u ini.s num den he⟩
+  obtain ⟨p1, p2, p3, p4, _, p6, _⟩ := accepted_properties V hdet hkl L _ _ _ _ _ hn hacc
+  have hrows := orderRows_rows cut (Rel.unorder cut uvws).1 (Rel.unorder cut uvws).2.1 (Rel.unorder cut uvws).2.2
+  rw [orderRows_unorder] at hrows
+  obtain ⟨r1, r2, r3⟩ := hrows
+  rw [r1, r2, r3]
+  refine ⟨p1, p2, p3, fun hd => ⟨p4 hd, ?_⟩⟩
+  have := p6 hd
+  rw [← det_orderRows cut, orderRows_unorder] at this
+  exact this
+
+end relational
+
+
+/-! ## the headline statement -/
+section headline
+variable {K : Type} [CommRing K] [LinearOrder K] [IsStrictOrderedRing K]
+
+/-- rows `b×c, c×a, a×b` of a cell (`= det · reciprocal vectors`). -/
+def cofRows (M : M3 K) : M3 K := ⟨V3.cross M.r1 M.r2, V3.cross M.r2 M.r0, V3.cross M.r0 M.r1⟩
+
+theorem cross_vecMul (M : M3 K) (p q : V3 K) :
+    V3.cross (M3.vecMul p M) (M3.vecMul q M) = M3.vecMul (V3.cross p q) (cofRows M) := by
+  simp only [V3.cross, M3.vecMul, cofRows, V3.mk.injEq]
+  refine ⟨by ring, by ring, by ring⟩
+
+/-- division-free form of the normal clause: `den·n = num·(h (b×c) + k (c×a) + l (a×b))` for the vectors
+    `a, b, c` of the conventional cell `L·V`, `num, den > 0`; over a field the right-hand side is
+    `num·det(L·V)·(h a* + k b* + l c*)` (`normal_is_reciprocal`). -/
+theorem normal_cofactor (V : M3 K) (hkl : IV) (L : M3 Int) (nOpt : Option Int) (r : ABC K)
+    (h : basisABC V hkl L nOpt = .ok r) :
+    ∃ num den : ℤ, 0 < num ∧ 0 < den ∧
+      V3.smul (den : K) r.pn = V3.smul (num : K) (M3.vecMul (toK hkl) (cofRows (M3.mul (castM L) V))) := by
+  obtain ⟨ini, cb, hi, hn, hpn, _⟩ := basisABC_ok V hkl L nOpt r h
+  have hne : hkl ≠ ⟨0, 0, 0⟩ := by
+    rintro rfl; rw [initVectors_zero] at hi; cases hi
+  obtain ⟨ini', hi', num, den, h1, h2, he⟩ := init_cross_parallel hkl hne
+  rw [hi] at hi'; cases hi'
+  refine ⟨num, den, h1, h2, ?_⟩
+  rw [hpn]
+  simp only [planeNormal, cart_vecMul]
+  unfold cart
+  rw [cross_vecMul, ← toK_cross]
+  have he' : toK (K := K) (V3.smul den (V3.smul ini.s (V3.cross ini.a0 ini.b0))) = toK (V3.smul num hkl) := by rw [he]
+  generalize V3.cross ini.a0 ini.b0 = w at he' ⊢
+  generalize cofRows (M3.mul (castM L) V) = C at *
+  simp only [toK, V3.smul, V3.mk.injEq] at he'
+  obtain ⟨e1, e2, e3⟩ := he'
+  push_cast at e1 e2 e3
+  simp only [toK, V3.smul, M3.vecMul, V3.mk.injEq]
+  refine ⟨?_, ?_, ?_⟩
+  · linear_combination C.r0.x * e1 + C.r1.x * e2 + C.r2.x * e3
+  · linear_combination C.r0.y * e1 + C.r1.y * e2 + C.r2.y * e3
+  · linear_combination C.r0.z * e1 + C.r1.z * e2 + C.r2.z * e3
+
+/-- **free_surface_basis_correct**: for a right-handed cell, every successful call — any plane, any
+    centring matrix, any `maxindex`, each of the three cut vectors — returns a right-handed integer matrix
+    whose row at `cutindex` is a primitive vector out of the plane on the side of the normal and whose other two
+    rows satisfy the zone law (indices `row · adj L = det L ·` conventional indices), together with a normal
+    that is a positive multiple of `h (b×c) + k (c×a) + l (a×b)` of the conventional cell. -/
+theorem free_surface_basis_correct (V : M3 K) (hdet : 0 < M3.det V) (hkl : IV) (L : M3 Int) (cut : Cut)
+    (nOpt : Option Int) (uvws : M3 Int) (pn : V3 K) (h : freeSurfaceBasis V hkl L cut nOpt = .ok (uvws, pn)) :
+    0 < M3.det uvws ∧
+    V3.dot hkl (M3.vecMul (uvws.row ((cutIndex cut + 1) % 3)) (adj L)) = 0 ∧
+    V3.dot hkl (M3.vecMul (uvws.row ((cutIndex cut + 2) % 3)) (adj L)) = 0 ∧
+    0 < V3.dot hkl (M3.vecMul (uvws.row (cutIndex cut)) (adj L)) ∧
+    gcd3 (uvws.row (cutIndex cut)) = 1 ∧
+    ∃ num den : ℤ, 0 < num ∧ 0 < den ∧
+      V3.smul (den : K) pn = V3.smul (num : K) (M3.vecMul (toK hkl) (cofRows (M3.mul (castM L) V))) := by
+  obtain ⟨r, hr, rfl, rfl⟩ := ((freeSurfaceBasis_eq V hkl L cut nOpt).1 uvws pn).mp h
+  obtain ⟨hacc, hn⟩ := accepted_of_run V hdet.ne' hkl L nOpt r hr
+  obtain ⟨p1, p2, _, p4, _, p6, p7⟩ := accepted_properties V hdet.ne' hkl L _ _ _ _ _ hn hacc
+  obtain ⟨r1, r2, r3⟩ := orderRows_rows cut r.a r.b r.c
+  rw [r1, r2, r3, det_orderRows]
+  exact ⟨p6 hdet, p1, p2, p4 hdet, p7, normal_cofactor V hkl L nOpt r hr⟩
+
+end headline
 
 /-! ### Miller-Bravais input / output -/
 
@@ -976,6 +1203,329 @@ theorem surface_same_crystal (rbox : Box K) (hdet : M3.det rbox.vects ≠ 0) (sa
 
 end surface2
 
+/-! ### translations that are lattice vectors of the crystal inside a larger periodic cell -/
+section orbit
+variable {K : Type} [Field K] [LinearOrder K] [IsStrictOrderedRing K]
+
+theorem latticeVec_neg (V : M3 K) (n : IV) (p : V3 K) :
+    p + C05.latticeVec V n + C05.latticeVec V ⟨-n.x, -n.y, -n.z⟩ = p := by
+  ext <;> simp only [C05.latticeVec, M3.vecMul, C05.V3.add_def] <;> push_cast <;> ring
+
+/-- wrapping first makes no difference to a later wrap of a translated atom. -/
+theorem wrapPos_wrapPos_add (box : Box K) (hdet : M3.det box.vects ≠ 0) (pbc : V3 Bool) (fl : K → Int)
+    (hfl : C05.IsFloor fl) (x t : V3 K) :
+    wrapPos box pbc fl (wrapPos box pbc fl x + t) = wrapPos box pbc fl (x + t) := by
+  obtain ⟨h1, h2, h3, h4⟩ := wrapPos_reconstruct box hdet pbc fl x
+  set n := imageFlags box pbc fl x with hn
+  have e : x + t = (wrapPos box pbc fl x + t) + C05.latticeVec box.vects n := by
+    conv_lhs => rw [← h1]
+    ext <;> simp only [C05.V3.add_def] <;> ring
+  rw [e, wrapPos_add_lattice box hdet pbc fl hfl _ n h2 h3 h4]
+
+/-- the `M` images `wrap(q + k·t)`, `k = 0 … M-1`, of one atom under a translation `t` with `M·t` a periodic
+    cell vector. -/
+def orbit (box : Box K) (pbc : V3 Bool) (fl : K → Int) (t : V3 K) (M : ℕ) (q : V3 K) : List (V3 K) :=
+  (List.range M).map fun (k : ℕ) => wrapPos box pbc fl (q + V3.smul ((k : ℤ) : K) t)
+
+theorem orbit_shift_perm (box : Box K) (hdet : M3.det box.vects ≠ 0) (pbc : V3 Bool) (fl : K → Int)
+    (hfl : C05.IsFloor fl) (t : V3 K) (M : ℕ) (m : IV)
+    (hM : V3.smul ((M : ℤ) : K) t = C05.latticeVec box.vects m)
+    (hx : pbc.x = false → m.x = 0) (hy : pbc.y = false → m.y = 0) (hz : pbc.z = false → m.z = 0) (q : V3 K) :
+    ((orbit box pbc fl t M q).map (fun p => wrapPos box pbc fl (p + t))).Perm (orbit box pbc fl t M q) := by
+  cases M with
+  | zero => simp [orbit]
+  | succ N =>
+    have step : ∀ k : ℕ, wrapPos box pbc fl (wrapPos box pbc fl (q + V3.smul ((k : ℤ) : K) t) + t)
+        = wrapPos box pbc fl (q + V3.smul (((k + 1 : ℕ) : ℤ) : K) t) := by
+      intro k
+      rw [wrapPos_wrapPos_add box hdet pbc fl hfl]
+      congr 1
+      ext <;> simp only [C05.V3.add_def, V3.smul] <;> push_cast <;> ring
+    have hlast : wrapPos box pbc fl (q + V3.smul (((N + 1 : ℕ) : ℤ) : K) t) = wrapPos box pbc fl (q + V3.smul ((0 : ℤ) : K) t) := by
+      rw [hM, wrapPos_add_lattice box hdet pbc fl hfl q m hx hy hz]
+      congr 1
+      ext <;> simp only [C05.V3.add_def, V3.smul] <;> push_cast <;> ring
+    -- image list = [f 1, …, f N, f (N+1)] = [f 1, …, f N, f 0]; original = f 0 :: [f 1, …, f N]
+    have e1 : (orbit box pbc fl t (N + 1) q).map (fun p => wrapPos box pbc fl (p + t))
+        = (List.range (N + 1)).map (fun (k : ℕ) => wrapPos box pbc fl (q + V3.smul (((k + 1 : ℕ) : ℤ) : K) t)) := by
+      simp only [orbit, List.map_map]
+      apply List.map_congr_left
+      intro k _
+      exact step k
+    rw [e1]
+    have e2 : (List.range (N + 1)).map (fun (k : ℕ) => wrapPos box pbc fl (q + V3.smul (((k + 1 : ℕ) : ℤ) : K) t))
+        = (List.range N).map (fun (k : ℕ) => wrapPos box pbc fl (q + V3.smul (((k + 1 : ℕ) : ℤ) : K) t))
+          ++ [wrapPos box pbc fl (q + V3.smul ((0 : ℤ) : K) t)] := by
+      rw [List.range_succ, List.map_append, List.map_singleton, hlast]
+    have e3 : orbit box pbc fl t (N + 1) q
+        = wrapPos box pbc fl (q + V3.smul ((0 : ℤ) : K) t)
+          :: (List.range N).map (fun (k : ℕ) => wrapPos box pbc fl (q + V3.smul (((k + 1 : ℕ) : ℤ) : K) t)) := by
+      simp only [orbit, List.range_succ_eq_map, List.map_cons, List.map_map]
+      rfl
+    rw [e2, e3]
+    exact List.perm_append_singleton _ _
+
+
+/-- every output of `wrap` is inside the cell along the periodic directions. -/
+theorem wrapPos_insidePeriodic (box : Box K) (hdet : M3.det box.vects ≠ 0) (pbc : V3 Bool) (fl : K → Int)
+    (hfl : C05.IsFloor fl) (p : V3 K) : insidePeriodic box pbc (wrapPos box pbc fl p) := by
+  have e : box.cartToRel (wrapPos box pbc fl p) = box.cartToRel p - toK (imageFlags box pbc fl p) := by
+    unfold wrapPos
+    rw [C05.cartToRel_relToCart box hdet]
+  unfold insidePeriodic
+  rw [e]
+  obtain ⟨a1, a2⟩ := hfl (box.cartToRel p).x
+  obtain ⟨b1, b2⟩ := hfl (box.cartToRel p).y
+  obtain ⟨c1, c2⟩ := hfl (box.cartToRel p).z
+  refine ⟨?_, ?_, ?_⟩ <;> intro h <;> simp only [imageFlags, h, if_true, toK, C05.V3.sub_def] <;>
+    constructor <;> linarith
+
+/-- `wrap` does not change the coordinate along a non-periodic direction to which the periodic cell vectors
+    are perpendicular (the cut direction of a surface system). -/
+theorem wrapPos_cut (box : Box K) (hdet : M3.det box.vects ≠ 0) (pbc : V3 Bool) (fl : K → Int) (cut : Cut)
+    (hnp : pbc.get (cutIndex cut) = false)
+    (hrows : ∀ i, i < 3 → i ≠ cutIndex cut → (box.vects.row i).get (cutIndex cut) = 0) (p : V3 K) :
+    (wrapPos box pbc fl p).get (cutIndex cut) = p.get (cutIndex cut) := by
+  obtain ⟨h1, h2, h3, h4⟩ := wrapPos_reconstruct box hdet pbc fl p
+  set n := imageFlags box pbc fl p
+  set w := wrapPos box pbc fl p
+  have hx : w.x + ((n.x : K) * box.vects.r0.x + (n.y : K) * box.vects.r1.x + (n.z : K) * box.vects.r2.x) = p.x := by
+    have := congrArg V3.x h1; simpa [C05.latticeVec, M3.vecMul, C05.V3.add_def] using this
+  have hy : w.y + ((n.x : K) * box.vects.r0.y + (n.y : K) * box.vects.r1.y + (n.z : K) * box.vects.r2.y) = p.y := by
+    have := congrArg V3.y h1; simpa [C05.latticeVec, M3.vecMul, C05.V3.add_def] using this
+  have hz : w.z + ((n.x : K) * box.vects.r0.z + (n.y : K) * box.vects.r1.z + (n.z : K) * box.vects.r2.z) = p.z := by
+    have := congrArg V3.z h1; simpa [C05.latticeVec, M3.vecMul, C05.V3.add_def] using this
+  cases cut
+  · have r1 : box.vects.r1.x = 0 := hrows 1 (by norm_num) (by decide)
+    have r2 : box.vects.r2.x = 0 := hrows 2 (by norm_num) (by decide)
+    have n0 : n.x = 0 := h2 hnp
+    show w.x = p.x
+    rw [← hx, r1, r2, n0]; push_cast; ring
+  · have r0 : box.vects.r0.y = 0 := hrows 0 (by norm_num) (by decide)
+    have r2 : box.vects.r2.y = 0 := hrows 2 (by norm_num) (by decide)
+    have n0 : n.y = 0 := h3 hnp
+    show w.y = p.y
+    rw [← hy, r0, r2, n0]; push_cast; ring
+  · have r0 : box.vects.r0.z = 0 := hrows 0 (by norm_num) (by decide)
+    have r1 : box.vects.r1.z = 0 := hrows 1 (by norm_num) (by decide)
+    have n0 : n.z = 0 := h4 hnp
+    show w.z = p.z
+    rw [← hz, r0, r1, n0]; push_cast; ring
+
+theorem add_get (p t : V3 K) (i : ℕ) : (p + t).get i = p.get i + t.get i := by
+  simp only [V3.get, C05.V3.add_def]; split_ifs <;> rfl
+
+/-- **fault_orbit_restores**: a system whose atoms come in orbits of the translation `t` (`M·t` a periodic
+    cell vector, as in any supercell holding `M` unit cells along a lattice vector `t` of the crystal) is
+    restored, as a multiset of positions, by a stacking-fault shift `t` in the fault plane. -/
+theorem fault_orbit_restores (box : Box K) (hdet : M3.det box.vects ≠ 0) (pbc : V3 Bool) (fl : K → Int)
+    (hfl : C05.IsFloor fl) (cut : Cut) (fp : K) (t : V3 K) (M : ℕ) (m : IV)
+    (hM : V3.smul ((M : ℤ) : K) t = C05.latticeVec box.vects m)
+    (hx : pbc.x = false → m.x = 0) (hy : pbc.y = false → m.y = 0) (hz : pbc.z = false → m.z = 0)
+    (hnp : pbc.get (cutIndex cut) = false)
+    (hrows : ∀ i, i < 3 → i ≠ cutIndex cut → (box.vects.row i).get (cutIndex cut) = 0)
+    (ht : t.get (cutIndex cut) = 0)
+    (base ps : List (V3 K)) (hps : ps.Perm (base.flatMap (orbit box pbc fl t M))) :
+    (fault box pbc fl cut fp t ps).Perm ps := by
+  set os := base.flatMap (orbit box pbc fl t M) with hos
+  have hin : ∀ p ∈ os, insidePeriodic box pbc p := by
+    intro p hp
+    simp only [hos, List.mem_flatMap, orbit, List.mem_map] at hp
+    obtain ⟨q, _, k, _, rfl⟩ := hp
+    exact wrapPos_insidePeriodic box hdet pbc fl hfl _
+  have habove : ∀ p, isAbove cut fp (wrapPos box pbc fl (p + t)) = isAbove cut fp p := by
+    intro p
+    simp only [isAbove, wrapPos_cut box hdet pbc fl cut hnp hrows, add_get, ht, add_zero]
+  have hmap : (os.map (fun p => wrapPos box pbc fl (p + t))).Perm os := by
+    rw [hos, List.map_flatMap]
+    exact List.Perm.flatMap_left _ (fun q _ => orbit_shift_perm box hdet pbc fl hfl t M m hM hx hy hz q)
+  have hsym : ((os.filter (isAbove cut fp)).map (fun p => wrapPos box pbc fl (p + t))).Perm
+      (os.filter (isAbove cut fp)) := by
+    have e : (os.filter (isAbove cut fp)).map (fun p => wrapPos box pbc fl (p + t))
+        = (os.map (fun p => wrapPos box pbc fl (p + t))).filter (isAbove cut fp) := by
+      rw [List.filter_map]
+      congr 1
+      apply List.filter_congr
+      intro p _
+      simp only [Function.comp, habove]
+    rw [e]
+    exact hmap.filter _
+  have h1 := fault_lattice_vector_restores box hdet pbc fl hfl cut fp t os hin hsym
+  have h2 : (fault box pbc fl cut fp t ps).Perm (fault box pbc fl cut fp t os) := hps.map _
+  exact h2.trans (h1.trans hps.symm)
+
+end orbit
+
+/-! ### the layer list produced by `np.unique(round(x))` -/
+
+theorem roundHalfEven_bounds (x : ℚ) :
+    (roundHalfEven x = ⌊x⌋ ∧ x - ⌊x⌋ ≤ 1 / 2) ∨ (roundHalfEven x = ⌊x⌋ + 1 ∧ 1 / 2 ≤ x - ⌊x⌋) := by
+  unfold roundHalfEven
+  have hf : (Rat.floor x : ℤ) = ⌊x⌋ := rfl
+  simp only [hf]
+  split_ifs with h1 h2 h3
+  · left; exact ⟨rfl, h1.le⟩
+  · right; exact ⟨rfl, h2.le⟩
+  · left; exact ⟨rfl, not_lt.mp h2⟩
+  · right; exact ⟨rfl, not_lt.mp h1⟩
+
+theorem roundHalfEven_mono {x y : ℚ} (h : x ≤ y) : roundHalfEven x ≤ roundHalfEven y := by
+  have hfl : ⌊x⌋ ≤ ⌊y⌋ := Int.floor_mono h
+  rcases lt_or_eq_of_le hfl with hlt | heq
+  · rcases roundHalfEven_bounds x with ⟨e1, _⟩ | ⟨e1, _⟩ <;> rcases roundHalfEven_bounds y with ⟨e2, _⟩ | ⟨e2, _⟩ <;>
+      rw [e1, e2] <;> omega
+  · -- same floor: compare the fractional parts
+    unfold roundHalfEven
+    have hfx : (Rat.floor x : ℤ) = ⌊x⌋ := rfl
+    have hfy : (Rat.floor y : ℤ) = ⌊y⌋ := rfl
+    simp only [hfx, hfy, ← heq]
+    have hr : x - (⌊x⌋ : ℚ) ≤ y - (⌊x⌋ : ℚ) := by linarith
+    split_ifs <;> first | omega | (exfalso; linarith)
+
+theorem roundKey_mono (d : ℕ) {x y : ℚ} (h : x ≤ y) : roundKey d x ≤ roundKey d y := by
+  unfold roundKey
+  apply roundHalfEven_mono
+  have : (0 : ℚ) ≤ ((10 ^ d : ℕ) : ℚ) := by positivity
+  exact mul_le_mul_of_nonneg_right h this
+
+theorem lt_of_roundKey_lt (d : ℕ) {x y : ℚ} (h : roundKey d x < roundKey d y) : x < y := by
+  by_contra hn
+  have := roundKey_mono d (not_lt.mp hn)
+  omega
+
+theorem mem_insertKey (kx p : ℤ × ℚ) (l : List (ℤ × ℚ)) : p ∈ insertKey kx l → p = kx ∨ p ∈ l := by
+  induction l with
+  | nil => intro h; simp only [insertKey, List.mem_singleton] at h; exact Or.inl h
+  | cons q t ih =>
+    obtain ⟨k, y⟩ := q
+    simp only [insertKey]
+    split_ifs
+    · intro h; rcases List.mem_cons.mp h with h | h
+      · exact Or.inl h
+      · exact Or.inr h
+    · intro h; exact Or.inr h
+    · intro h
+      rcases List.mem_cons.mp h with h | h
+      · exact Or.inr (by rw [h]; simp)
+      · rcases ih h with h | h
+        · exact Or.inl h
+        · exact Or.inr (List.mem_cons_of_mem _ h)
+
+theorem insertKey_sorted (kx : ℤ × ℚ) (l : List (ℤ × ℚ)) (h : l.Pairwise (fun p q => p.1 < q.1)) :
+    (insertKey kx l).Pairwise (fun p q => p.1 < q.1) := by
+  induction l with
+  | nil => simp [insertKey]
+  | cons q t ih =>
+    obtain ⟨k, y⟩ := q
+    rw [List.pairwise_cons] at h
+    simp only [insertKey]
+    split_ifs with h1 h2
+    · refine List.pairwise_cons.mpr ⟨?_, List.pairwise_cons.mpr h⟩
+      intro p hp
+      rcases List.mem_cons.mp hp with rfl | hp
+      · exact h1
+      · exact lt_trans h1 (h.1 p hp)
+    · exact List.pairwise_cons.mpr h
+    · refine List.pairwise_cons.mpr ⟨?_, ih h.2⟩
+      intro p hp
+      rcases mem_insertKey kx p t hp with rfl | hp
+      · show k < p.1; omega
+      · exact h.1 p hp
+
+theorem insertKey_has_key (kx : ℤ × ℚ) (l : List (ℤ × ℚ)) :
+    (∃ p ∈ insertKey kx l, p.1 = kx.1) ∧ ∀ q ∈ l, q ∈ insertKey kx l := by
+  induction l with
+  | nil => simp [insertKey]
+  | cons q t ih =>
+    obtain ⟨k, y⟩ := q
+    simp only [insertKey]
+    split_ifs with h1 h2
+    · exact ⟨⟨kx, by simp, rfl⟩, fun q hq => List.mem_cons_of_mem _ hq⟩
+    · exact ⟨⟨(k, y), by simp, h2.symm⟩, fun q hq => hq⟩
+    · obtain ⟨⟨p, hp, hpk⟩, hall⟩ := ih
+      refine ⟨⟨p, List.mem_cons_of_mem _ hp, hpk⟩, ?_⟩
+      intro q hq
+      rcases List.mem_cons.mp hq with rfl | hq
+      · simp
+      · exact List.mem_cons_of_mem _ (hall q hq)
+
+/-- **layerCoords_spec**: the layer list is strictly ascending, consists of coordinates of atoms, and every
+    atom's rounded coordinate is represented by exactly such an entry. -/
+theorem layerCoords_spec (d : ℕ) (xs : List ℚ) :
+    (layerCoords d xs).Pairwise (· < ·) ∧ (∀ c ∈ layerCoords d xs, c ∈ xs) ∧
+    (∀ x ∈ xs, ∃ c ∈ layerCoords d xs, roundKey d c = roundKey d x) := by
+  unfold layerCoords
+  have key : ∀ (l : List ℚ) (acc : List (ℤ × ℚ)),
+      (acc.Pairwise (fun p q => p.1 < q.1) ∧ (∀ p ∈ acc, p.1 = roundKey d p.2)) →
+      let r := l.foldl (fun acc x => insertKey (roundKey d x, x) acc) acc
+      (r.Pairwise (fun p q => p.1 < q.1) ∧ (∀ p ∈ r, p.1 = roundKey d p.2)) ∧
+      (∀ p ∈ r, p ∈ acc ∨ p.2 ∈ l) ∧ (∀ p ∈ acc, p ∈ r) ∧ (∀ x ∈ l, ∃ p ∈ r, p.1 = roundKey d x) := by
+    intro l
+    induction l with
+    | nil => intro acc h; exact ⟨h, fun p hp => Or.inl hp, fun p hp => hp, by simp⟩
+    | cons x t ih =>
+      intro acc h
+      have h' : (insertKey (roundKey d x, x) acc).Pairwise (fun p q => p.1 < q.1) ∧
+          (∀ p ∈ insertKey (roundKey d x, x) acc, p.1 = roundKey d p.2) := by
+        refine ⟨insertKey_sorted _ _ h.1, ?_⟩
+        intro p hp
+        rcases mem_insertKey _ p acc hp with rfl | hp
+        · rfl
+        · exact h.2 p hp
+      obtain ⟨r1, r2, r3, r4⟩ := ih (insertKey (roundKey d x, x) acc) h'
+      obtain ⟨⟨p0, hp0, hk0⟩, hall⟩ := insertKey_has_key (roundKey d x, x) acc
+      refine ⟨r1, ?_, fun p hp => r3 p (hall p hp), ?_⟩
+      · intro p hp
+        rcases r2 p hp with hp | hp
+        · rcases mem_insertKey _ p acc hp with rfl | hp
+          · exact Or.inr (by simp)
+          · exact Or.inl hp
+        · exact Or.inr (List.mem_cons_of_mem _ hp)
+      · intro y hy
+        rcases List.mem_cons.mp hy with rfl | hy
+        · exact ⟨p0, r3 p0 hp0, hk0⟩
+        · exact r4 y hy
+  obtain ⟨⟨s1, s2⟩, s3, _, s5⟩ := key xs [] ⟨List.Pairwise.nil, by simp⟩
+  refine ⟨?_, ?_, ?_⟩
+  · rw [List.pairwise_map]
+    refine s1.imp_of_mem ?_
+    intro p q hp hq hpq
+    rw [s2 p hp, s2 q hq] at hpq
+    exact lt_of_roundKey_lt d hpq
+  · intro c hc
+    simp only [List.mem_map] at hc
+    obtain ⟨p, hp, rfl⟩ := hc
+    rcases s3 p hp with h | h
+    · cases h
+    · exact h
+  · intro x hx
+    obtain ⟨p, hp, hk⟩ := s5 x hx
+    exact ⟨p.2, List.mem_map.mpr ⟨p, hp, rfl⟩, by rw [← s2 p hp]; exact hk⟩
+
+
+/-- **shift_between_planes** for the layer list the code builds from the atoms of the rotated cell (all
+    cut coordinates inside one period `[lo, lo + W]`): every offered shift keeps every periodic image of
+    every layer representative at least half an interlayer gap away from the cut. -/
+theorem shift_between_planes_atoms (d : ℕ) (xs : List ℚ) (W tol lo : ℚ) (hne : xs ≠ [])
+    (hbox : ∀ x ∈ xs, lo ≤ x ∧ x ≤ lo + W) (hW0 : 0 < W) (htol : 0 ≤ tol) :
+    ∀ s ∈ shifts (layerCoords d xs) W tol, ∃ p q : ℚ,
+      (p, q) ∈ consec (withReplica (layerCoords d xs) W tol) ∧ p < q ∧
+      (∃ j : ℤ, s = (j : ℚ) * W - (p + q) / 2) ∧
+      (∀ c ∈ layerCoords d xs, ∀ m : ℤ, c + s + (m : ℚ) * W ≤ -((q - p) / 2) ∨ (q - p) / 2 ≤ c + s + (m : ℚ) * W) ∧
+      (∀ c ∈ layerCoords d xs, ∀ m : ℤ, c + s + (m : ℚ) * W ≠ 0) := by
+  obtain ⟨h1, h2, h3⟩ := layerCoords_spec d xs
+  have hne' : layerCoords d xs ≠ [] := by
+    obtain ⟨x, hx⟩ := List.exists_mem_of_ne_nil xs hne
+    obtain ⟨c, hc, _⟩ := h3 x hx
+    exact List.ne_nil_of_mem hc
+  have hf : (layerCoords d xs).head? = some ((layerCoords d xs).head hne') := List.head?_eq_some_head hne'
+  have hl : (layerCoords d xs).getLast? = some ((layerCoords d xs).getLast hne') :=
+    List.getLast?_eq_some_getLast hne'
+  have b1 := hbox _ (h2 _ (List.head_mem hne'))
+  have b2 := hbox _ (h2 _ (List.getLast_mem hne'))
+  exact shift_between_planes (layerCoords d xs) W tol _ _ h1 hf hl (by linarith) hW0 htol
+
+
 /-! ## non-vacuity: the hypotheses of the theorems above are satisfiable (concrete runs of the model) -/
 
 /-- the driver's floor is a floor. -/
@@ -998,6 +1548,14 @@ example : freeSurfaceBasis exTri ⟨2, 1, 0⟩ exId .c none
 -- face-centred setting: (111) of the conventional cell on the primitive fcc cell, cut a
 example : ∃ L, c2p "f" = some L ∧ freeSurfaceBasis exFccPrim ⟨1, 1, 1⟩ L .a none
     = .ok (⟨⟨1, 1, 1⟩, ⟨-1, 1, 0⟩, ⟨-1, 0, 1⟩⟩, ⟨4, 4, 4⟩) := ⟨_, rfl, by decide +kernel⟩
+-- the relational model accepts the coded answer (and rejects a left-handed variant)
+example : Rel.validBasis exCubic ⟨1, 1, 1⟩ exId .c none ⟨⟨-1, 1, 0⟩, ⟨-1, 0, 1⟩, ⟨1, 1, 1⟩⟩ 1 1000000000 = "1" := by
+  decide +kernel
+example : Rel.validBasis exCubic ⟨1, 1, 1⟩ exId .c none ⟨⟨-1, 1, 0⟩, ⟨1, 0, -1⟩, ⟨1, 1, 1⟩⟩ 1 1000000000 ≠ "1" := by
+  decide +kernel
+-- the same run at `ℤ` (what the driver executes)
+example : freeSurfaceBasis (K := ℤ) ⟨⟨4, 0, 0⟩, ⟨2, 6, 0⟩, ⟨1, 2, 8⟩⟩ ⟨2, 1, 0⟩ exId .c none
+    = .ok (⟨⟨0, 0, 1⟩, ⟨1, -2, 0⟩, ⟨1, 0, 0⟩⟩, ⟨96, 0, -12⟩) := by decide +kernel
 -- the two refusals
 example : freeSurfaceBasis exCubic ⟨0, 0, 0⟩ exId .c none = .error "value" := by decide +kernel
 example : freeSurfaceBasis exCubic ⟨3, 1, 0⟩ exId .c (some 1) = .error "assert" := by decide +kernel
@@ -1015,6 +1573,10 @@ example : faultPos (⟨exCubic, ⟨0, 0, 0⟩⟩ : Box ℚ) ⟨true, true, false
     = ⟨1 / 2, 0, 1 / 2⟩ := by decide +kernel
 example : insidePeriodic (⟨exCubic, ⟨0, 0, 0⟩⟩ : Box ℚ) ⟨true, true, false⟩ ⟨1 / 2, 0, 3 / 4⟩ := by
   unfold insidePeriodic; decide +kernel
+example : layerCoords 7 ([1 / 2, 0, 1 / 2 + 1 / 1000000000, 3 / 4] : List ℚ) = [0, 1 / 2, 3 / 4] := by decide +kernel
+example : V3.smul (((2 : ℕ) : ℤ) : ℚ) (⟨1 / 2, 0, 0⟩ : V3 ℚ) = C05.latticeVec exCubic ⟨1, 0, 0⟩ := by decide +kernel
+example : orbit (⟨exCubic, ⟨0, 0, 0⟩⟩ : Box ℚ) ⟨true, true, false⟩ Rat.floor ⟨1 / 2, 0, 0⟩ 2 ⟨1 / 4, 0, 3 / 4⟩
+    = [⟨1 / 4, 0, 3 / 4⟩, ⟨3 / 4, 0, 3 / 4⟩] := by decide +kernel
 example : cutMult 3 (some 5) true = 6 ∧ cutMult (-3) none true = -4 ∧ cutMult (-2) (some 5) false = -5 := by decide
 example : pushRadicand .c (5 : ℚ) ⟨3, 0, 1⟩ = 4 * 4 := by decide +kernel
 
